@@ -723,10 +723,19 @@ func (s *sched) teardown() {
 
 // ---- worker side API ----
 
+// InlineGo makes Go run f synchronously while no controlled execution is active. Free running harnesses (C08) set it
+// around a single handler call: the short lived goroutines of the handlers (forced DHCP declines) then run to
+// completion inside the call instead of racing with the next case (and with the loop budget, which is global).
+var InlineGo bool
+
 // Go starts f as a controlled goroutine.
 func Go(f func()) {
 	if !Active() {
 		if isKilling() {
+			return
+		}
+		if InlineGo {
+			f()
 			return
 		}
 		go f()
